@@ -1,5 +1,5 @@
 """C07 — failures are contained."""
-FUNCS = ["JobLock.acquire", "JobDependency.lock", "Job.dependencychanged", "Dependency.check", "JobDependency.status", "Scheduler.aio_submit", "experiment.wait.awaitcompletion"]
+FUNCS = ["Scheduler.aio_start", "JobLock.acquire", "JobDependency.lock", "Job.dependencychanged", "Dependency.check", "JobDependency.status", "Scheduler.aio_submit", "experiment.wait.awaitcompletion"]
 LEVEL = "proof"
 LEVEL_TEXT = 'Deductive: JobDependency.status maps ERROR to FAIL; dependencychanged(FAIL) on a non-final job gives ERROR/DEPENDENCY and wakes the job; FAIL never counts as satisfied; aio_submit records a non-DONE job in failedJobs, re-checks every dependent (one call_soon(check) per dependent), never starts a job that is not READY, writes DONE only on evidence of success (a missing exit code of a re-attached process is a failure); awaitcompletion raises FailedExperiment iff failedJobs is not empty. Bounded: failure containment on real small DAGs.'
 TRUSTED = ["'independent jobs still run to completion' is liveness", 'z3 5.1 / cvc5 1.0.3 / z3 4.8.12 and the VC generator pyvc (validated by seeded changes, pre-fix replays and the CPython replay of counterexamples; not verified)', 'Python semantics of DESIGN 2.3 (mathematical ints and reals, left-to-right evaluation, no monkey-patching, assert not compiled out)', 'heap typing: declared field/parameter classes are assumed on reads and checked on writes in the functions under contract', "contracts of externals and of callees outside the list are assumed; every ('ASSUME', ...) clause is listed in DESIGN section 11"]
